@@ -47,10 +47,14 @@ func TestMain(m *testing.M) {
 const (
 	sec = int64(time.Second)
 	// base instant of every history: a multiple of every window size used
-	// (lcm(1..6) = 60 s), far away from the epoch.
-	baseSec = int64(1_700_000_040)
+	// (lcm(1,2,3,4,5,7,11,13) = 60060 s), far away from the epoch.
+	baseSec = int64(60060 * 28305) // 1 699 998 300
 	baseNs  = baseSec * sec
 )
+
+// window sizes: small ones plus sizes (7, 11, 13 s) that do not divide the distance between Go's zero time
+// and the Unix epoch, so a grid aligned to anything but the epoch shows
+var windowSizes = []int{1, 2, 3, 4, 5, 1, 2, 3, 7, 11, 13}
 
 type groupAlloc struct {
 	Value string  `json:"value"`
@@ -538,7 +542,7 @@ func genRemedy(t *rapid.T, idx int, forceAlloc bool) remedySpec {
 	rs := remedySpec{
 		Name:    fmt.Sprintf("r%d", idx),
 		Allowed: rapid.SampledFrom(allowedPool).Draw(t, "allowed"),
-		W:       rapid.IntRange(1, 5).Draw(t, "w"),
+		W:       rapid.SampledFrom(windowSizes).Draw(t, "w"),
 		Status:  rapid.SampledFrom(statusPool).Draw(t, "status"),
 	}
 	if forceAlloc || rapid.IntRange(0, 9).Draw(t, "grouped") < 6 {
@@ -597,7 +601,7 @@ func genIntent(o genOpts) *rapid.Generator[intent] {
 			Remedy: rapid.IntRange(0, 2).Draw(t, "remedy"),
 		}
 		if in.Kind == "resize" {
-			in.NewW = rapid.IntRange(1, 5).Draw(t, "neww")
+			in.NewW = rapid.SampledFrom(windowSizes).Draw(t, "neww")
 			return in
 		}
 		in.Tag = rapid.SampledFrom(tags).Draw(t, "tag")
